@@ -1489,6 +1489,38 @@ def _interp1(xv, xs, fs):
     return slope * (xv - xs[j]) + fs[j]
 
 
+class _AddUfunc:
+    """np.add as far as bycycle-style code uses it: call, reduce, reduceat (1-D)."""
+
+    def __call__(self, a, b):
+        return asarray(a) + b
+
+    def reduce(self, a, axis=0):
+        return sum(a)
+
+    def reduceat(self, a, indices):
+        a = asarray(a)
+        idx = [int(v) for v in asarray(indices)._flat_values()]
+        if a.ndim != 1:
+            raise ModelGap("add.reduceat ndim != 1")
+        vals = a._flat_values()
+        n = len(vals)
+        out = []
+        for k, i in enumerate(idx):
+            if i < 0 or i >= n:
+                raise IndexError("index %d out-of-bounds in add.reduceat [0, %d)" % (i, n))
+            j = idx[k + 1] if k + 1 < len(idx) else n
+            seg = vals[i:j] if i < j else [vals[i]]
+            tot = seg[0]
+            for v in seg[1:]:
+                tot = tot + v
+            out.append(tot)
+        return ndarray._from_flat(out, (len(out),), a.kind if a.kind != 'b' else 'i')
+
+
+add = _AddUfunc()
+
+
 def array_equal(a, b):
     a, b = asarray(a), asarray(b)
     if a.shape != b.shape:
